@@ -14,6 +14,7 @@ CONSTANTS
  LockDel = FALSE
  LockDelEarly = FALSE
  ObsFilters = {"none", "t1"}
+ ListConc = FALSE
  CowIndex = FALSE
 INIT MInit
 NEXT MNext
